@@ -176,6 +176,46 @@ def oracle(b: Bench) -> str | None:
     return None
 
 
+# --------------------------------------------------------------------------- history logs
+
+
+def real_logs(lines: list[list[str]]) -> str:
+    """The three history lists of Props/C09fifo.lean (who started waiting, who was handed the lock by a
+    release, whose waiter future was cancelled), derived from the REAL lock's public statistics only: an
+    `acquire` that suspended is queued iff the lock is afterwards owned by somebody else (owner = caller:
+    uncontended path; no owner: spinning in a cancelled scope); a hand-over is an owner change to a task
+    that is queued.  Observations are per loop handle; one handle holds at most one hand-over and at
+    most one new waiter.  The model driver answers the same `log` request from its ghost state."""
+    enq: list[int] = []
+    granted: list[int] = []
+    cancelled: list[int] = []
+    queued: set[int] = set()
+    pending: int | None = None
+    prev_owner = "-"
+    for req, out in lines:
+        w = req.split()
+        if w[0] == "acquire" and out == "susp":
+            pending = int(w[1])
+        elif w[0] == "fc":
+            cancelled.append(int(w[1]))
+        elif w[0] == "step" and out != "susp":
+            queued.discard(int(w[1]))  # its acquire has ended (raised the cancellation)
+        elif w[0] == "obs" and out:
+            f = dict(kv.split("=") for kv in out.split())
+            owner = f["owner"]
+            if pending is not None:
+                if owner not in ("-", "?", str(pending)):
+                    enq.append(pending)
+                    queued.add(pending)
+                pending = None
+            if owner != prev_owner and owner.isdigit() and int(owner) in queued:
+                granted.append(int(owner))
+                queued.discard(int(owner))
+            prev_owner = owner
+    fmt = lambda l: ",".join(map(str, l)) if l else "-"  # noqa: E731
+    return f"enq={fmt(enq)} granted={fmt(granted)} cancelled={fmt(cancelled)}"
+
+
 # --------------------------------------------------------------------------- run
 
 
@@ -194,6 +234,15 @@ def run_cases(cases: list[dict], res: Result, eager_every: int = 0) -> None:
     for i, case in enumerate(cases):
         b = Bench(LockAdapter(), case, eager=bool(eager_every and i % eager_every == 0)).run()
         benches.append(b)
+        if not b.error:
+            lg = real_logs(b.lines)
+            b.lines.append(["log", lg])
+            res.stats["history_logs_compared"] = res.stats.get("history_logs_compared", 0) + 1
+            if "granted=-" not in lg:
+                res.stats["history_logs_with_handover"] = res.stats.get("history_logs_with_handover", 0) + 1
+            if "cancelled=-" not in lg:
+                res.stats["history_logs_with_cancelled_waiter"] = res.stats.get(
+                    "history_logs_with_cancelled_waiter", 0) + 1
         adapter_lines += [r for r, _ in b.lines]
     replies = run_model("lock", adapter_lines)
     pos = 0
